@@ -133,6 +133,17 @@ func HighLevel(text []byte, ch Chooser, probe Probe) []bool {
 	mode := Upper
 	i := 0
 	n := len(text)
+	// one message in three is encoded "efficiently": no optional binary
+	// shifts, pair codes and direct codes always taken, a latch to Punct as
+	// soon as two pair codes follow each other (the shortest encodings have
+	// the highest ratio of decoded bytes to message bits)
+	eff := ch.Intn(3) == 0
+	coin := func(k int) int {
+		if eff {
+			return 1 // never 0: the optional detours below are all guarded by "== 0" or "> 0" tests chosen accordingly
+		}
+		return ch.Intn(k)
+	}
 	inAny := func(c byte) bool {
 		for m := 0; m < 5; m++ {
 			if charCode[m][c] >= 0 {
@@ -151,7 +162,7 @@ func HighLevel(text []byte, ch Chooser, probe Probe) []bool {
 	for i < n {
 		c := text[i]
 		// binary shift: mandatory for bytes in no table, optional otherwise
-		if !inAny(c) || ch.Intn(12) == 0 {
+		if !inAny(c) || (!eff && ch.Intn(12) == 0) {
 			j := i + 1
 			for j < n && (!inAny(text[j]) || ch.Intn(3) > 0) && j-i < 2078 {
 				j++
@@ -182,7 +193,14 @@ func HighLevel(text []byte, ch Chooser, probe Probe) []bool {
 		}
 		// two-character punctuation codes
 		if i+1 < n {
-			if code, ok := punctPairs[string(text[i:i+2])]; ok && ch.Intn(4) > 0 {
+			if code, ok := punctPairs[string(text[i:i+2])]; ok && coin(4) > 0 {
+				nextIsPair := false
+				if i+3 < n {
+					_, nextIsPair = punctPairs[string(text[i+2:i+4])]
+				}
+				if mode != Punct && ((eff && nextIsPair) || (!eff && ch.Intn(3) == 0)) {
+					goTo(Punct) // latch, so that following pairs are single 5-bit codes
+				}
 				if mode == Punct {
 					out.put(code, 5)
 				} else {
@@ -195,7 +213,7 @@ func HighLevel(text []byte, ch Chooser, probe Probe) []bool {
 				continue
 			}
 		}
-		if code := charCode[mode][c]; code >= 0 && ch.Intn(10) > 0 {
+		if code := charCode[mode][c]; code >= 0 && coin(10) > 0 {
 			out.put(code, width(mode))
 			i++
 			continue
